@@ -1512,7 +1512,12 @@ impl KotoVm {
             }
             TemporaryTuple(RegisterSlice { start, count }) => {
                 let count = *count;
-                if (index.unsigned_abs() as usize) < count {
+                let in_bounds = if index < 0 {
+                    (index.unsigned_abs() as usize) <= count
+                } else {
+                    (index as usize) < count
+                };
+                if in_bounds {
                     let index = signed_index_to_unsigned(index, count);
                     self.registers[start + index].clone()
                 } else {
@@ -1607,6 +1612,15 @@ impl KotoVm {
                     tuple.make_sub_tuple(0..index).into()
                 } else {
                     tuple.make_sub_tuple(index..tuple.len()).into()
+                }
+            }
+            TemporaryTuple(RegisterSlice { start, count }) => {
+                let index = signed_index_to_unsigned(index, count);
+                let range = if is_slice_to { 0..index } else { index..count };
+                if range.start <= range.end && range.end <= count {
+                    Tuple(self.registers[start + range.start..start + range.end].into())
+                } else {
+                    Null
                 }
             }
             Str(s) => {
